@@ -39,15 +39,38 @@ func (gt *genText) boundaryOf(off int) int {
 	return -1
 }
 
-// posOK: is p an acceptable position for boundary k (PosOKT)?
+// posOK: is p the position prescribed for boundary k (PosOKT)?
 func (gt *genText) posOK(k int, p lspPos) bool {
 	if k < 0 || k >= len(gt.Pos) {
 		return false
 	}
-	if p.Line == gt.Pos[k][0] && p.Character == gt.Pos[k][1] {
-		return true
+	return p.Line == gt.Pos[k][0] && p.Character == gt.Pos[k][1]
+}
+
+// boundaryKind names what surrounds boundary k (coverage evidence only: which kinds of offsets
+// the ends of parse-error ranges reached).
+func (gt *genText) boundaryKind(k int) string {
+	var exp []string
+	for _, s := range gt.Sym {
+		if isWord(s) {
+			for range s {
+				exp = append(exp, "a")
+			}
+		} else {
+			exp = append(exp, s)
+		}
 	}
-	return gt.Mid[k] && p.Line == gt.Pos[k][0]+1 && p.Character == 0
+	prev, next := "start", "end"
+	if k > 0 && k <= len(exp) {
+		prev = exp[k-1]
+	}
+	if k < len(exp) {
+		next = exp[k]
+	}
+	if k < len(gt.Mid) && gt.Mid[k] {
+		return "between-CR-and-LF"
+	}
+	return prev + "|" + next
 }
 
 // diagOK: the published ranges are exactly the converted error ranges (DiagOK).
@@ -100,8 +123,22 @@ func variants(sym []string, r repSet) []string {
 		}
 		return sb.String()
 	}
-	for _, i := range idx { // one error at each ASCII position
-		out = append(out, mk(map[int]string{i: ")"}))
+	// one error-making character at each ASCII position: an unmatched closer, and incomplete
+	// constructs whose error is reported on / after the FOLLOWING character -- placed directly
+	// before CR LF, CR, LF, a multi-byte character or the end of the text this puts the ends of
+	// parse-error ranges on every kind of offset
+	for _, i := range idx {
+		for _, ch := range []string{")", "$", ">", "(", "'", "\"", "{"} {
+			out = append(out, mk(map[int]string{i: ch}))
+		}
+	}
+	for n, i := range idx { // two- and three-character constructs on adjacent ASCII positions
+		if n+1 < len(idx) && idx[n+1] == i+1 {
+			out = append(out, mk(map[int]string{i: "<", i + 1: "&"}), mk(map[int]string{i: " ", i + 1: ">"}))
+			if n+2 < len(idx) && idx[n+2] == i+2 {
+				out = append(out, mk(map[int]string{i: "{", i + 1: "|", i + 2: "&"}), mk(map[int]string{i: "x", i + 1: " ", i + 2: ">"}))
+			}
+		}
 	}
 	if len(idx) > 1 { // several errors
 		all := map[int]string{}
@@ -109,9 +146,6 @@ func variants(sym []string, r repSet) []string {
 			all[i] = ")"
 		}
 		out = append(out, mk(all))
-	}
-	if len(idx) > 0 { // an error reported at the end of the text, and one after a '$'
-		out = append(out, mk(map[int]string{idx[0]: "("}), mk(map[int]string{idx[len(idx)-1]: "$"}))
 	}
 	return out
 }
@@ -295,10 +329,14 @@ func (w *genWorker) replayText(gt genText) error {
 			return w.resync()
 		}
 		if !gt.diagOK(verrs, p.Diagnostics) {
-			c.Reject("diag:"+symKey, fmt.Sprintf("text %q has parse errors at bytes %v; published ranges %+v; reference positions %v (mid-CRLF %v)", v, verrs, p.Diagnostics, gt.Pos, gt.Mid), gt)
+			c.Reject("diag:"+symKey, fmt.Sprintf("text %q has parse errors at bytes %v; published ranges %+v; prescribed positions of the boundaries %v (inside CR LF: %v)", v, verrs, p.Diagnostics, gt.Pos, gt.Mid), gt)
 		}
 		w.stats["diag-variants"]++
 		w.stats["diag-ranges"] += len(verrs)
+		for _, e := range verrs {
+			w.stats["diag-start:"+gt.boundaryKind(gt.boundaryOf(e[0]))]++
+			w.stats["diag-end:"+gt.boundaryKind(gt.boundaryOf(e[1]))]++
+		}
 		c.Distinct("variant:" + v)
 	}
 	return nil
